@@ -17,6 +17,13 @@ claimed={
  'C11':("exploration","seeded schedule search through the block/wake protocol points; linearizability + stuck-waiter + FIFO oracles","DESIGN.md 7"),
  'C12':("exploration","simulated-clock timeout assertions, CLIENT UNBLOCK/KILL/close injected at protocol points, conservation and livelock/deadlock detection","DESIGN.md 7"),
  'C14':("exploration","multi-connection multi-database turn-taking histories refined against the model","DESIGN.md 7"),
+ 'C01':("exploration","twin runs (whole vs fragmented/pipelined delivery) with byte-identical replies, per-connection model refinement, all split offsets of one frame","DESIGN.md 7"),
+ 'C13':("exploration","hostile bytes and hostile arguments injected next to model-checked victim connections; panics recovered and fingerprinted, process death attributed and replayed","DESIGN.md 7"),
+ 'C15':("exploration","RESP2/RESP3 twin connections on equal state, relational oracle down(RESP3)==RESP2, HELLO at seeded positions","DESIGN.md 7"),
+ 'C16':("exploration","race-detector build driven by the same seeded scheduler with race-transparent hand-offs","DESIGN.md 2.7, 7"),
+ 'C17':("exploration","full SCAN/HSCAN/SSCAN iterations interleaved with mutation bursts at command granularity, always-present/ever-present sets from the model","DESIGN.md 7"),
+ 'C19':("fault_enumeration","restart after clean shutdown refined against the model; crash images captured at snapshot write stages with torn-file variants, each restarted","DESIGN.md 7"),
+ 'C20':("exploration","termination injected while clients are idle/mid-frame/in MULTI/blocked/not reading; successor on the same port; second instance in the same bubble","DESIGN.md 7"),
 }
 TEXT={
  'seq':"Seeded exploration: generated histories run in the deterministic simulator (fake clock, fragmented delivery, EXEC-wrapped variants, seeded rand); after every command the reply and the complete stored state are compared with an independent sequential Redis-7 reference model, and structural invariants of the store are walked. Evidence for the explored histories only; the right level because the property quantifies over unbounded histories and inputs.",
